@@ -253,6 +253,52 @@ def c10(tier):
     return [filt('atoms', 'C10', 3, 1, 'both', 'all', 7200), filt('pairs', 'C10', 2, 2, 'both', 'all', 7200)]
 
 
+def conc_model(label, ng, prog, timeout=600):
+    return dict(kind='tlc', module='MC_Conc', label='conc-' + label, timeout=timeout,
+                constants={'NG': ng, 'Prog': '<-' + prog, 'UseMutex': True, 'ResetParser': True, 'PoolPrivate': True, 'CopyOut': True, 'TreeReadOnly': True},
+                invariants=['MutualExclusion', 'ResidueFree', 'BufferPrivacy', 'ResultsPrivate', 'NoRace', 'PoolConsistent'], properties=['Terminates'])
+
+
+def conc_mutants(cases):
+    """sensitivity: each protective mechanism switched off must violate its invariant"""
+    def fn(pid, tier, sdir, harness, known):
+        runs = []
+        for sw, ng, prog, inv in cases:
+            consts = {'NG': ng, 'Prog': '<-' + prog, 'UseMutex': True, 'ResetParser': True, 'PoolPrivate': True, 'CopyOut': True, 'TreeReadOnly': True}
+            consts[sw] = False
+            st = vlib.run_tlc_only(sdir, 'MC_Conc', consts, [inv], 300, 'conc-mutant-' + sw)
+            if ('Invariant %s is violated' % inv) not in open(st['log'], errors='replace').read():
+                raise Infra('Conc with %s=FALSE no longer violates %s' % (sw, inv))
+            runs.append({k: st[k] for k in ('label', 'cmd', 'generated', 'distinct', 'wall_s')})
+        return dict(tlc_runs=runs, counters={'mutant-models-killed': len(cases)}, exhaustive=True)
+    return dict(kind='custom', fn=fn)
+
+
+def hist_gen(label, maxops, fnset, timeout=1800):
+    return dict(kind='gen', module='Gen_History', label=label, props='C05', timeout=timeout, check_count=False,
+                constants=dict(MaxOps=maxops, FnSet=fnset), invariants=['LawHistoryFree', 'Emit'])
+
+
+def c05(tier):
+    fph = lambda n, t=600: dict(kind='tlc', module='FilterProtoHist', label='filterproto-hist-%dcalls' % n, constants=dict(AsCoded=False, MaxCalls=n),
+                                invariants=['NoProtectedWrite', 'TreeImmutable', 'CallIsPure'], timeout=t)
+    if tier == 'quick':
+        return [fph(2), conc_model('sequential', 1, 'P1'), hist_gen('histories3-all', 3, 'all')]
+    return [fph(3, 3600), conc_model('sequential', 1, 'P1'), conc_mutants([('CopyOut', 1, 'P1', 'ResultsPrivate')]),
+            hist_gen('histories4-all', 4, 'all', 7200), hist_gen('histories5-core', 5, 'core', 7200)]
+
+
+def c19(tier):
+    def ph(label, calls, size, timeout=1800):
+        return dict(kind='gen', module='Gen_ParseHist', label=label, props='C19', timeout=timeout, check_count=False,
+                    prepare=lambda sdir: vlib.write_parse_pool(sdir, size),
+                    constants=dict(PoolFile='pool.ndjson', MaxCalls=calls), invariants=['LawDocumented', 'Emit'])
+    if tier == 'quick':
+        return [conc_model('sequential', 1, 'P1'), ph('parse-histories3', 3, 'quick')]
+    return [conc_model('sequential', 1, 'P1'), conc_mutants([('ResetParser', 1, 'P1', 'ResidueFree')]),
+            ph('parse-histories3-large-pool', 3, 'thorough', 7200), ph('parse-histories4', 4, 'quick', 14400)]
+
+
 def c02(tier):
     cn = dict(kind='tlc', module='CmpNormalize', label='cmp-normalize-terminates', constants=dict(AsCoded=False),
               invariants=['BuiltRight', 'AtMostOneSwap'], properties=['Terminates'], timeout=120, workers=1)
@@ -272,6 +318,8 @@ def c17(tier):
 
 
 CHECKS = {
+    'C19': dict(stages=c19, level='model_checking'),
+    'C05': dict(stages=c05, level='model_checking'),
     'C09': dict(stages=c09, level='model_checking'),
     'C10': dict(stages=c10, level='model_checking'),
     'C20': dict(stages=c20, level='model_checking'),
@@ -302,6 +350,8 @@ def run(pid, tier, sdir, t0):
     viol, known_hits = [], []
     exhaustive = True
     for st in spec['stages'](tier):
+        if st.get('prepare'):
+            st['prepare'](sdir)
         if st['kind'] == 'gen':
             log('[%s/%s] stage %s: TLC %s -> harness (props %s)' % (pid, tier, st['label'], st['module'], st['props']))
             ts, summ = vlib.run_gen(sdir, harness, st['module'], st['constants'], st['invariants'], st['props'],
